@@ -85,6 +85,16 @@ Theorem C01_vertex_subtree_covariant : forall jR2 nu2 th2 rest, covariant (verte
 Proof. exact Cascade_proofs.vertex_B_covariant. Qed.
 Print Assumptions C01_vertex_subtree_covariant.
 
+(* several interfering topologies with spin-0 final particles (e.g. a vector parent into three pseudoscalars through
+   resonances in all three pairings): no spectator phase, no alignment - the FULL density is rotation invariant, for any
+   parent spin 2J <= 8, any number of topologies and resonances of any spin, given the geometric relation per topology *)
+Theorem C01_multi_topology_rotation_invariant :
+  forall J2 a b g (ts : list topo),
+  (0 <= J2 <= 8)%Z -> Forall (Cascade_proofs.topo_ok J2 a b g) ts ->
+  hel_norm2 J2 (total_amp_after J2 ts) = hel_norm2 J2 (total_amp_before J2 ts).
+Proof. exact Cascade_proofs.multi_topology_rotation_invariant. Qed.
+Print Assumptions C01_multi_topology_rotation_invariant.
+
 Example C01_cascade_hypotheses_satisfiable :
   (0 <= 2 <= 8)%Z /\
   Forall (fun r => parity_ok 2 0 r /\ covariant (r_B r))
@@ -95,6 +105,6 @@ Proof. exact Cascade_proofs.cascade_hypotheses_satisfiable. Qed.
 
 (* NOT proved (kept visible): (i) the geometric hypothesis itself from the kinematic model (that the polar angles
    of G n and of n are related by such a psi: a statement about the covering SU(2) -> SO(3)); (ii) several
-   topologies interfering, where the spectator-dependent phase e^{i lc psi} is compensated by the alignment
+   topologies interfering WITH a spinning spectator, where the spectator-dependent phase e^{i lc psi} is compensated by the alignment
    rotations (C02 treats a common change of the alignment element abstractly); (iii) boosts (the Wigner rotation of
    the final-state helicities).  Those are decided by the certified comparison of the code with itself at p and Lambda p. *)
